@@ -56,7 +56,17 @@ Str* _ZNSt7__cxx1112basic_stringIcSt11char_traitsIcESaIcEE10_M_replaceEmmPKcm(St
 Str* _ZNSt7__cxx1112basic_stringIcSt11char_traitsIcESaIcEE14_M_replace_auxEmmmc(Str* s, size_t pos, size_t l1, size_t n2, char c)
 { char* t = (char*)malloc(n2 + 1); memset(t, c, n2); t[n2] = 0; _ZNSt7__cxx1112basic_stringIcSt11char_traitsIcESaIcEE10_M_replaceEmmPKcm(s, pos, l1, t, n2); free(t); return s; }
 void _ZNSt7__cxx1112basic_stringIcSt11char_traitsIcESaIcEE9_M_mutateEmmPKcm(Str* s, size_t pos, size_t l1, const char* d, size_t l2)
-{ _ZNSt7__cxx1112basic_stringIcSt11char_traitsIcESaIcEE10_M_replaceEmmPKcm(s, pos, l1, d ? d : "", d ? l2 : 0); if (!d && l2) { /* make room */ } }
+{
+    /* as libstdc++: reallocate for size - l1 + l2 characters, copy head, (optional) insert, tail; the caller sets the length */
+    size_t how_much = s->n - pos - l1, want = s->n + l2 - l1, oc = capacity(s), nc = want;
+    if (nc > oc && nc < 2 * oc) nc = 2 * oc;
+    char* r = (char*)malloc(nc + 1);
+    if (pos) memcpy(r, s->p, pos);
+    if (d && l2) memcpy(r + pos, d, l2);
+    if (how_much) memcpy(r + pos + l2, s->p + pos + l1, how_much);
+    if (!is_local(s)) free(s->p);
+    s->p = r; s->cap = nc;
+}
 int _ZNKSt7__cxx1112basic_stringIcSt11char_traitsIcESaIcEE7compareEPKc(const Str* s, const char* c)
 { size_t m = strlen(c), k = s->n < m ? s->n : m; int r = memcmp(s->p, c, k); if (r) return r; return s->n < m ? -1 : s->n > m ? 1 : 0; }
 size_t _ZNKSt7__cxx1112basic_stringIcSt11char_traitsIcESaIcEE4findEcm(const Str* s, char c, size_t pos)
